@@ -25,6 +25,15 @@ import (
 	"verif/harness/vf"
 )
 
+// c12MdLen: mostly short metadata, a quarter near the 1 KiB that indexers accept (the encrypted, base64-encoded
+// value then exceeds 1 KiB on the dhstore wire)
+func c12MdLen(r *rand.Rand) int {
+	if r.Intn(4) == 0 {
+		return []int{700, 800, 1000, 1023, 1024}[r.Intn(5)]
+	}
+	return 1 + r.Intn(60)
+}
+
 func init() { Registry["C12"] = runC12 }
 
 func runC12(c *vf.Ctx) {
@@ -560,7 +569,7 @@ func c12Find(c *vf.Ctx) {
 			mhs[k], _ = multihash.Sum(rbytes(r, 10+k), multihash.SHA2_256, -1)
 			seen := map[string]bool{}
 			for e := r.Intn(4); e > 0; e-- {
-				ent := idxEntry{pid: provs[r.Intn(nprov)].ID, ctx: rbytes(r, pickLen(r, 64, 0, 1, 64)), md: rbytes(r, 1+r.Intn(60))}
+				ent := idxEntry{pid: provs[r.Intn(nprov)].ID, ctx: rbytes(r, pickLen(r, 64, 0, 1, 64)), md: rbytes(r, c12MdLen(r))}
 				if seen[string(ent.pid)+string(ent.ctx)] {
 					continue
 				}
